@@ -284,6 +284,12 @@ func (state inSession) resendMessages(session *session, beginSeqNo, endSeqNo int
 		return err
 	}
 
+	if nextSeqNum <= endSeqNo {
+		// The tail of the range has no stored message (numbers skipped by moving the counter
+		// forward): the closing gap fill covers it too, the request is answered up to its end.
+		nextSeqNum = endSeqNo + 1
+	}
+
 	if seqNum != nextSeqNum { // gapfill for catch-up
 		if err = state.generateSequenceReset(session, seqNum, nextSeqNum, inReplyTo); err != nil {
 			return err
